@@ -106,6 +106,26 @@ CHECKS['C01'] = dict(
         'Unwind bound 1 iteration (step) / N <= 4 quick, 8 thorough (vacuum). Floats as reals. The drag law and atmosphere actually plugged in are C09/C08; wind selection is C12.',
    ref='3/C01')
 
+CHECKS['C02'] = dict(
+   text='PARTIAL. The real zero_angle / barrel_elevation_for_target / set_weapon_zero with the trajectory replaced by an ARBITRARY trajectory reported with _integrate\'s contract (symbolic height per call): iteration contract for every outcome '
+        '(accepted elevation is the one last fired and within accuracy; else ZeroFindingError with last elevation, stored zero untouched; <= cMaxIterations); geometry lemma on a locally straight trajectory (accepted => within accuracy + step*relative slope AT the aim point); '
+        'the code\'s update rule is extracted symbolically and z3 proves it contracts on the straight-line limit for all sight lines in (-60,60) deg.',
+   note='OUTSIDE: convergence of the iteration for real drag trajectories (only the straight-line lemma; C02.witness replays 8 (quick) / 22 (thorough) inclined zeroings through the public API at TEST strength). '
+        'Iteration cap 1..3 quick / 1..5 thorough (complete unwinding for those caps). The _integrate stub honours the contract decided in C03. Look angle via the exact half-angle parametrisation of sin/cos.',
+   ref='3/C02')
+CHECKS['C04'] = dict(
+   text='PARTIAL. (I) one real _integrate iteration from an arbitrary state with SYMBOLIC limits: RangeError raised iff the post-step state violates a limit, reason by precedence velocity > drop > altitude, last row = post-step state, last_distance is the last row\'s. '
+        '(P) carriers with concrete physics and symbolic limits: cells = which step trips which limit; rows before the last are bit-identical to the unlimited run and respect all limits.',
+   note='OUTSIDE: "every computation terminates" (liveness over an unbounded floating point loop) - only dt > 0 per step (C01.step) and bounded carrier horizons K <= 12 quick / 40 thorough (a path exceeding 4K steps is cut and reported). '
+        'Interpolated rows may undershoot the velocity limit by the chord error: 1e-3 relative tolerance for rows before the last.',
+   ref='3/C04')
+CHECKS['C15'] = dict(
+   text='The real _TrajectoryDataFilter (all flags) and setup_seen_zero fed K SYMBOLIC integration points: ZERO_UP / ZERO_DOWN exactly at the first upward / subsequent downward crossing (once each), MACH exactly when speed/sound falls through 1, flagged point yields a row with the bit, '
+        'row within the step of the crossing, time order. Carriers with symbolic range/step: flag words of the integration points and returned rows match the crossings; HitResult.zeros().',
+   note='K = 4 points quick / 4..6 thorough (2 / 3 when range rows interleave); look angle in {0, +-0.35 rad} (concrete, so the sight line is linear in x). Assumes a trajectory that starts below the line with the barrel pointing below it never rises above it (concavity). '
+        'Carriers A (sight above/below bore, level and 20 deg), B (Mach crossing), horizon K <= 12 / 40 steps.',
+   ref='3/C15')
+
 NOT_YET = {}
 
 def main():
